@@ -398,6 +398,21 @@ static void vf_free(void* p) {
   if (found) free(p);
 }
 
+// 1 if p is the start of a block that is currently live in the shadow table
+VF_API int vf_alloc_is_live(void* p) {
+  if (!p || !vf_tab) return 0;
+  pthread_mutex_lock(&vf_mu);
+  unsigned h = vf_hash(p);
+  int found = 0;
+  for (unsigned i = 0; i < VF_TAB; i++) {
+    vf_blk* b = &vf_tab[(h + i) & (VF_TAB - 1)];
+    if (!b->p) break;
+    if (b->p == p) { found = 1; break; }
+  }
+  pthread_mutex_unlock(&vf_mu);
+  return found;
+}
+
 VF_API void vf_alloc_install(int fill) {
   if (!vf_tab) vf_tab = (vf_blk*)calloc(VF_TAB, sizeof(vf_blk));
   vf_fill = fill;
